@@ -257,20 +257,27 @@ class Check:
         self.checker_cmds.append("cd lean && lake build " + module)
         return rc == 0, out + err
 
-    def prove(self, props_module, extra_modules=()):
-        """build the property theorems, grep hygiene, audit axioms"""
+    def prove(self, props_module, extra_modules=(), also=()):
+        """build the property theorems, grep hygiene, audit axioms; `also`: further theorem modules whose theorems
+        are counted and audited like those of `props_module`"""
         path = os.path.join(LEAN, props_module.replace(".", "/") + ".lean")
         spans = theorem_spans(path, None)
         thms = [s for s in spans if s[1] in ("theorem", "lemma")]
         exs = [s for s in spans if s[1] == "example"]
-        self.obligations = len(thms) + len(exs)
-        self.theorems = [t[0] for t in thms]
+        also_thms = []
+        for m in also:
+            sp = theorem_spans(os.path.join(LEAN, m.replace(".", "/") + ".lean"), None)
+            also_thms += [s for s in sp if s[1] in ("theorem", "lemma")]
+        self.obligations = len(thms) + len(exs) + len(also_thms)
+        self.theorems = [t[0] for t in thms + also_thms]
         ok, out = self.build(props_module)
-        for m in extra_modules:
+        for m in tuple(also) + tuple(extra_modules):
             ok2, out2 = self.build(m)
             if not ok2:
                 self.proof_broken.append("module %s does not build" % m)
                 self.extra.setdefault("build_errors", []).append(out2[-3000:])
+                if m in also:
+                    ok = False
         broken = set()
         if not ok:
             hit = False
@@ -290,7 +297,7 @@ class Check:
             self.proof_broken.extend(sorted(broken))
         # hygiene
         mods = transitive_local_imports(props_module)
-        for m in extra_modules:
+        for m in tuple(also) + tuple(extra_modules):
             transitive_local_imports(m, mods)
         for f in lean_files_for(mods):
             src = strip_lean_comments(open(f).read())
@@ -299,8 +306,9 @@ class Check:
                 self.proof_broken.append("forbidden construct %r in %s" % (m.group(0).strip(), os.path.relpath(f, LEAN)))
         self.checker_cmds.append("grep -E 'sorry|admit|^axiom |native_decide|bv_decide|implemented_by|unsafe |maxHeartbeats 0' over %d local modules (comments stripped): must be empty" % len(mods))
         # audit
+        thms = thms + also_thms
         if ok and thms:
-            audit = "import %s\n" % props_module + "".join("#print axioms %s\n" % t[0] for t in thms)
+            audit = "import %s\n" % props_module + "".join("import %s\n" % m for m in also) + "".join("#print axioms %s\n" % t[0] for t in thms)
             apath = os.path.join(LEAN, ".lake", "audit_%s.lean" % self.pid)
             with _Lock():
                 write_if_changed(apath, audit)
@@ -332,8 +340,8 @@ class Check:
             self.discharged = 0
         if self.tier == "thorough" and ok:
             with _Lock():
-                rc, cout, cerr, dt = run_cmd(["lake", "env", "leanchecker", props_module], cwd=LEAN, timeout=3000)
-            self.checker_cmds.append("lake env leanchecker " + props_module)
+                rc, cout, cerr, dt = run_cmd(["lake", "env", "leanchecker", props_module] + list(also), cwd=LEAN, timeout=3000)
+            self.checker_cmds.append("lake env leanchecker " + " ".join([props_module] + list(also)))
             self.extra["leanchecker"] = {"rc": rc, "wall_s": round(dt, 1), "tail": (cout + cerr)[-300:]}
             if rc != 0:
                 self.proof_broken.append("leanchecker rejected " + props_module)
